@@ -59,7 +59,7 @@ class Toks:
 
 ATTRS = {'noundef', 'nonnull', 'nocapture', 'readonly', 'readnone', 'noalias', 'signext', 'zeroext', 'immarg',
          'writeonly', 'returned', 'inreg', 'nofree', 'nest', 'swiftself', 'noreturn', 'nounwind', 'inbounds',
-         'nsw', 'nuw', 'exact', 'fast', 'nnan', 'ninf', 'nsz', 'arcp', 'contract', 'afn', 'reassoc', 'tail', 'notail',
+         'nsw', 'nuw', 'exact', 'fast', 'inrange', 'nnan', 'ninf', 'nsz', 'arcp', 'contract', 'afn', 'reassoc', 'tail', 'notail',
          'musttail', 'fastcc', 'ccc', 'dso_local', 'local_unnamed_addr', 'unnamed_addr', 'volatile', 'internal',
          'private', 'external', 'global', 'constant', 'hidden', 'linkonce_odr', 'weak_odr', 'available_externally',
          'comdat', 'weak', 'common', 'thread_local', 'protected', 'default', 'dso_preemptable'}
@@ -83,7 +83,7 @@ def parse_type(tk, mod):
                 tk.expect(',')
         if packed: tk.expect('>')
         ty = T('struct', fields=fs)
-    elif t.startswith('%'): ty = T('named', name=t[1:])
+    elif t.startswith('%'): ty = T('named', name=t[1:].strip('"'))
     elif t == 'opaque': ty = T('opaque')
     elif t in ('label', 'metadata', 'token'): ty = T(t)
     else: raise Unsupported('type token ' + t)
@@ -1079,6 +1079,9 @@ class Eval:
                 v = None if ins.v is None else s.const_val(ins.v, ins.ty, st)
                 rets.append((v, st)); return []
             if op == 'unreachable':
+                thr = st.mem.get(('thrown', ('flag',)))
+                if thr is not None and is_true(simplify(thr)):
+                    rets.append((None, st)); return []          # exceptional exit: an exception was thrown on this path
                 s.oblig.append((st.pc, BoolVal(False), 'unreachable executed in ' + f.name)); return []
             if op == 'invoke':
                 v = s.do_call(f, ins, st)
